@@ -199,7 +199,9 @@ def build(spec):
             key2sid[(name, float(xs[k]), float(ys[k]))] = int(ss[k])
         meta = {'catalog': cat, 'name': name}
         if im['gid'] is not None:
-            meta['group_id'] = im['gid']
+            # the canonical group number is mapped to an arbitrary (hashable) user label, including falsy but
+            # valid ones such as 0 or '' (a label is only "no group" when it is None)
+            meta['group_id'] = spec.get('gid_labels', {}).get(im['gid'], im['gid'])
         cors.append(T['Counting'](wg, meta=meta))
         rows.append([int(s) for s in ss])
     # reference
@@ -575,8 +577,11 @@ def mk_spec(rng, kinds, gids, refmode, expand, enforce, far_prob=0.15, **kw):
                ids=rng.choice(['none', 'seq', 'custom']), keep=rng.choice([0.2, 0.5, 0.8]), rseed=rng.randrange(1000))
     if refmode in ('corr', 'corr_nocat') and ref['field'] == 'both':
         ref['field'] = 'near'
+    pool = rng.choice([[0, '', 7, 'g', 3.5, (1,)], [False, 'x', '', -1, (0,), 2], [1, 2, 3, 4, 5, 6]])
+    labels = rng.sample(pool, 3)
     return dict(wseed=rng.randrange(4), images=images, ref=ref, expand=expand, enforce=enforce, fitgeom=fitgeom,
-                minobj=minobj, match='scripted', nclip=rng.choice([0, 3]))
+                minobj=minobj, match='scripted', nclip=rng.choice([0, 3]),
+                gid_labels={1: labels[0], 2: labels[1], 3: labels[2]})
 
 
 def sanitize_coin(spec):
